@@ -506,6 +506,222 @@ def oracle_C09(inp):
     return out
 
 
+# ------------------------------------------------------------------------------------------ C07
+
+class Raises(Exception):
+    pass
+
+
+def _handle_ext(x):
+    if not x:
+        return ""
+    exts = [e.strip() for e in x.split(",")] if "," in x else [x]
+    res = []
+    for e in exts:
+        res.extend(conf.extension_alias.get(e, [e]))
+    return ",".join(sorted(set(res)))
+
+
+def _apply(ty, string, fields, q):
+    """the decision table of C04 on a typed search; None = the query does not fit (dropped)"""
+    pairs = dict(parse_query(q))
+    overlay = dict(fields)
+    for k, v in pairs.items():
+        optional = v.startswith("~")
+        if optional:
+            v = v.replace("~", "")
+        if k in overlay or not optional:
+            overlay[k] = v.replace(" ", "") if False else v
+    ts = types_of(overlay)
+    is_search = any(sym in (string + "?" + q) for sym in conf.search_symbols)
+    if not ts:
+        return None
+    if len(ts) == 1:
+        c = ts[0]
+    elif ty in [t for t, _, _ in ts]:
+        c = [t for t in ts if t[0] == ty][0]
+    elif is_search:
+        c = ts[0]
+    else:
+        return None
+    return c[0], c[1], dict(c[2])
+
+
+def denotes(s):
+    """the set of typed searches (type, string) the search expression denotes"""
+    import itertools
+    body, q = s.split("?", 1) if "?" in s else (s, "")
+    parts = body.split("/")
+    parts[-1] = _handle_ext(parts[-1])
+    qd = None
+    if q:
+        qd = dict(parse_query(q))
+        for lk in set(conf.leaf_keys.values()):
+            if qd.get(lk):
+                qd[lk] = _handle_ext(qd[lk])
+    alts = [[a.strip() for a in p.split(",")] if "," in p else [p] for p in parts]
+    bodies = ["/".join(c) for c in itertools.product(*alts)]
+    queries = [None]
+    if qd is not None and "," in ("/".join(parts) + "?" + "&".join("%s=%s" % kv for kv in qd.items())):
+        keys = list(qd.keys())
+        vals = [qd[k].split(",") if "," in qd[k] else [qd[k]] for k in keys]
+        queries = [dict(zip(keys, c)) for c in itertools.product(*vals)]
+    elif qd is not None:
+        queries = [qd]
+    out = set()
+    tpls = templates()
+    for b in bodies:
+        typed = []
+        n = b.count("/**")
+        if n > 1:
+            raise Raises()
+        if n == 1:
+            root = b.split("/**")[0]
+            rt, _ = first_accepting(root) if root else (None, None)
+            if not rt:
+                raise Raises()
+            lk = conf.leaf_keys.get(rt.split(conf.sidtype_keytype_sep)[0])
+            if not lk:
+                raise Raises()
+            for label, tf in tpls:
+                if tf and tf[-1][0] == lk:
+                    k = len(tf) - (b.count("/") - 1) - 0
+                    # the filled string must have exactly len(tf) segments
+                    need = len(tf) - 1 - b.count("/") + 1
+                    if need < 0:
+                        continue
+                    filled = b.replace("/**", "/*" * need)
+                    if accepts(tf, filled.split("/")):
+                        typed.append((label, filled, dict(zip([x for x, _ in tf], filled.split("/")))))
+        else:
+            for label, tf in tpls:
+                if b and accepts(tf, b.split("/")):
+                    typed.append((label, b, dict(zip([x for x, _ in tf], b.split("/")))))
+        for qq in queries:
+            for ty, st, fl in typed:
+                cur = (ty, st, fl)
+                if qq is not None and qq:
+                    qs = "&".join("%s=%s" % (k, v) for k, v in qq.items())
+                    cur = _apply(ty, st, fl, qs)
+                    if cur is None:
+                        continue
+                nq = conf.basetyped_search_narrowing.get(cur[0].split(conf.sidtype_keytype_sep)[0], "")
+                if nq:
+                    cur = _apply(cur[0], cur[1], cur[2], nq)
+                    if cur is None:
+                        continue
+                nq = conf.typed_search_narrowing.get(cur[0], "")
+                if nq:
+                    cur = _apply(cur[0], cur[1], cur[2], nq)
+                    if cur is None:
+                        continue
+                out.add((cur[0], cur[1]))
+    return out
+
+
+def oracle_C07(inp):
+    from spil.sid.read.tools import unfold_search
+    s = inp["s"]
+    if set(s) & set("%+#\t\r\n") or "--start--" in s:
+        return []
+    q = s.split("?", 1)[1] if "?" in s else ""
+    if q and any(("=" not in piece and piece) for piece in q.replace("?", "&").split("&")):
+        pass
+    if s.split("?")[0] == "":
+        return []     # '?query' alone is the Sid(query=...) form, not a search expression
+    out = []
+    try:
+        exp = denotes(s)
+        exp_raises = False
+    except Raises:
+        exp, exp_raises = None, True
+    try:
+        got = unfold_search(s)
+    except SpilException:
+        if not exp_raises:
+            out.append("unfold_search(%r) raised SpilException, expected %r" % (s, sorted(exp)))
+        return out
+    except BaseException as e:  # noqa
+        return ["unfold_search(%r) raised %s: %s" % (s, type(e).__name__, e)]
+    if exp_raises:
+        return ["unfold_search(%r) returned %r, expected SpilException" % (s, [x.uri for x in got])]
+    pairs = [(x.type, str(x)) for x in got]
+    if len(pairs) != len(set(pairs)):
+        out.append("unfold_search(%r) has duplicates" % s)
+    if any((not x) or "?" in str(x) for x in got):
+        out.append("unfold_search(%r) returned an untyped Sid or an un-applied query" % s)
+    if set(pairs) != exp:
+        out.append("unfold_search(%r): expected %r, got %r" % (s, sorted(exp), sorted(pairs)))
+    return out
+
+
+# ------------------------------------------------------------------------------------------ C05 / C06
+
+def oracle_C05(inp):
+    """Sid -> path -> Sid for a concrete typed Sid with values outside {'', '.'}"""
+    from spil.sid.pathops.pathconfig import get_path_config
+    s = inp["s"]
+    out = []
+    x = Sid(s)
+    if not x or x.is_search():
+        return []
+    if any(v in ("", ".") or "/" in v for v in x.fields.values()):
+        return []
+    paths = {}
+    for cfg in conf.path_configs.keys():
+        try:
+            p = x.path(cfg)
+            p2 = x.path(cfg)
+        except BaseException as e:  # noqa
+            out.append("%r.path(%r) raised %s: %s" % (x.uri, cfg, type(e).__name__, e))
+            continue
+        if p != p2:
+            out.append("path() is not a function: %r %r" % (p, p2))
+        pc = get_path_config(cfg)
+        has_tpl = Resolver.get(pc.name).get_pattern_for(x.type) is not None
+        if not has_tpl:
+            if p is not None:
+                out.append("%r has no path template in %r but path %r" % (x.uri, cfg, p))
+            continue
+        if p is None:
+            out.append("%r.path(%r) is None although its type has a path template" % (x.uri, cfg))
+            continue
+        paths[cfg] = str(p)
+        y = Sid(path=str(p), config=cfg)
+        if not same(x, y) and natural(x):
+            out.append("Sid(path=%r, config=%r) = %r, expected %r" % (str(p), cfg, y.uri, x.uri))
+        elif not natural(x) and (str(y) != str(x) or y.type != x.type):
+            out.append("Sid(path=%r, config=%r) = %r, expected %r" % (str(p), cfg, y.uri, x.uri))
+    roots = _roots()
+    rel = {cfg: p[len(roots[cfg]):] for cfg, p in paths.items() if p.startswith(roots[cfg])}
+    if len(rel) != len(paths) or len(set(rel.values())) > 1:
+        out.append("paths of %r differ by more than the root: %r" % (x.uri, paths))
+    s2 = inp.get("s2")
+    if s2:
+        z = Sid(s2)
+        if z and not z.is_search() and not any(v in ("", ".") for v in z.fields.values()):
+            for cfg in paths:
+                pz = z.path(cfg)
+                if pz is not None and str(pz) == paths[cfg] and not (z.type == x.type and z.fields == x.fields):
+                    out.append("different Sids %r and %r share the path %r" % (x.uri, z.uri, paths[cfg]))
+    return out
+
+
+def oracle_C06(inp):
+    p, cfg = _real(inp["path"]), inp.get("config")
+    try:
+        x = Sid(path=p, config=cfg)
+    except BaseException as e:  # noqa
+        return ["Sid(path=%r, config=%r) raised %s: %s" % (inp["path"], cfg, type(e).__name__, e)]
+    if x:
+        q = x.path(cfg) if cfg else x.path()
+        if str(q) != p:
+            return ["Sid(path=%r, config=%r) = %r whose path is %r" % (inp["path"], cfg, x.uri, str(q))]
+    elif str(x) != "" or x.type != "":
+        return ["untyped result is not the empty Sid: %r" % observe(x)]
+    return []
+
+
 # ------------------------------------------------------------------------------------------ worlds
 
 def _roots():
